@@ -33,8 +33,9 @@ VARIABLES content,     \* content[i][n] : version held by loader i / by search p
           cache,       \* cache[n] : [ver, from, lastMod] ; ver = 0 : not cached
           cacheOn, autoReload,
           clock,       \* engine-side time stamp source for registered strings (only compared with itself)
+          remembered,  \* remembered[n] : the search path (slot) in which the file-system loader found n last (0: none)
           hist
-vars == <<content, mtime, loads, cache, cacheOn, autoReload, clock, hist>>
+vars == <<content, mtime, loads, cache, cacheOn, autoReload, clock, remembered, hist>>
 
 \* slot 1: the plain loader; slot 2: the timestamp-aware loader (its first search path); slot 3: its second search path
 Slots == IF TwoPaths THEN {1, 2, 3} ELSE {1, 2}
@@ -52,6 +53,7 @@ Init == /\ content = [i \in Slots |-> [n \in Names |-> 0]]
         /\ loads = [i \in Loaders |-> [n \in Names |-> 0]]
         /\ cache = [n \in Names |-> NoEntry]
         /\ cacheOn = TRUE /\ autoReload = InitAuto /\ clock = 1
+        /\ remembered = [n \in Names |-> 0]
         /\ hist = <<>>
 
 \* what the implementation must show after a step
@@ -75,18 +77,20 @@ Render(n) ==
     /\ IF cacheOn /\ cache[n].ver # 0 /\ ~Stale(n)
        THEN \* P4 / P3b / P1: served from the cache, no loader is read
             /\ hist' = Append(hist, [op |-> "render", n |-> n, obs |-> Observation(cache[n].ver, cache, loads)])
-            /\ UNCHANGED <<content, mtime, loads, cache, cacheOn, autoReload, clock>>
+            /\ UNCHANGED <<content, mtime, loads, cache, cacheOn, autoReload, clock, remembered>>
        ELSE LET w == FirstWith(n)
                 rd == ReadsFor(n)
             IN IF w = 0
                THEN \* P6: not found, cache unchanged
                     /\ loads' = rd
+                    /\ remembered' = [remembered EXCEPT ![n] = 0]
                     /\ hist' = Append(hist, [op |-> "render", n |-> n, obs |-> Observation(0, cache, rd)])
                     /\ UNCHANGED <<content, mtime, cache, cacheOn, autoReload, clock>>
                ELSE \* P2 / P3a / P5: (re)load from the first loader that has it
                     LET entry == [ver |-> content[w][n], from |-> w, lastMod |-> IF TsAware(w) THEN mtime[w][n] ELSE 0]
                         c2 == IF cacheOn THEN [cache EXCEPT ![n] = entry] ELSE cache
                     IN /\ loads' = rd
+                       /\ remembered' = IF w = 1 THEN remembered ELSE [remembered EXCEPT ![n] = w]
                        /\ cache' = c2
                        /\ hist' = Append(hist, [op |-> "render", n |-> n, obs |-> Observation(content[w][n], c2, rd)])
                        /\ UNCHANGED <<content, mtime, cacheOn, autoReload, clock>>
@@ -96,7 +100,7 @@ Register(n, v) ==
     /\ cache' = [cache EXCEPT ![n] = [ver |-> v + 10, from |-> 0, lastMod |-> clock]]     \* registered versions are 11, 12
     /\ clock' = clock + 1
     /\ hist' = Append(hist, [op |-> "register", n |-> n, v |-> v + 10, obs |-> Observation(-1, cache', loads)])
-    /\ UNCHANGED <<content, mtime, loads, cacheOn, autoReload>>
+    /\ UNCHANGED <<content, mtime, loads, cacheOn, autoReload, remembered>>
 
 \* registering a compiled template is a registration like any other: it replaces what the name had, whatever time
 \* stamp the compiled form carries (old: 0, new: far in the future); versions 21, 22
@@ -104,41 +108,42 @@ RegCompiled(n, v, old) ==
     /\ n \in RegNames /\ cacheOn
     /\ cache' = [cache EXCEPT ![n] = [ver |-> v + 20, from |-> 0, lastMod |-> IF old THEN 0 ELSE 1000000]]
     /\ hist' = Append(hist, [op |-> "regcompiled", n |-> n, v |-> v + 20, b |-> old, obs |-> Observation(-1, cache', loads)])
-    /\ UNCHANGED <<content, mtime, loads, cacheOn, autoReload, clock>>
+    /\ UNCHANGED <<content, mtime, loads, cacheOn, autoReload, clock, remembered>>
 
 \* a content change always raises the time stamp (a change with an equal stamp is undetectable by design)
 \* every write to a file gets a time stamp newer than every stamp the name has had.  A file may be put into the first
-\* search path only while the second does not hold the name or the loader has never been asked for it: which copy a
-\* file-system loader that has already served the back copy prefers when a front copy appears later is not stated anywhere.
+\* search path, or back into the second, only if that does not leave the loader with files in both paths while it
+\* remembers the back one: which copy a file-system loader that has already served the back copy prefers when a front
+\* copy appears later is not stated anywhere.
 NewestStamp(n) == LET S == {mtime[j][n] : j \in Slots \ {1}} IN CHOOSE m \in S : \A x \in S : x <= m
 Put(i, n, v) ==
     /\ i \in Slots /\ n \in LoaderNamesOf(i) /\ content[i][n] # v
-    /\ (TwoPaths /\ i = 2 => content[3][n] = 0 \/ loads[2][n] = 0)
+    /\ ~(TwoPaths /\ remembered[n] = 3 /\ ((i = 2 /\ content[3][n] # 0) \/ (i = 3 /\ content[2][n] # 0)))
     /\ content' = [content EXCEPT ![i][n] = v]
     /\ mtime' = IF TsAware(i) THEN [mtime EXCEPT ![i][n] = NewestStamp(n) + 1] ELSE mtime
     /\ hist' = Append(hist, [op |-> "put", i |-> i, n |-> n, v |-> v, mt |-> mtime'[i][n], obs |-> Observation(-1, cache, loads)])
-    /\ UNCHANGED <<loads, cache, cacheOn, autoReload, clock>>
+    /\ UNCHANGED <<loads, cache, cacheOn, autoReload, clock, remembered>>
 \* a deletion is a change like any other: with auto-reload on the next call sees it (and serves what the loaders
 \* then have, or reports not-found and leaves the cache alone)
 Delete(i, n) ==
     /\ i \in Slots /\ content[i][n] # 0
     /\ content' = [content EXCEPT ![i][n] = 0]
     /\ hist' = Append(hist, [op |-> "delete", i |-> i, n |-> n, obs |-> Observation(-1, cache, loads)])
-    /\ UNCHANGED <<mtime, loads, cache, cacheOn, autoReload, clock>>
+    /\ UNCHANGED <<mtime, loads, cache, cacheOn, autoReload, clock, remembered>>
 SetCache(b) ==
     /\ cacheOn # b
     /\ cacheOn' = b
     /\ hist' = Append(hist, [op |-> "setcache", b |-> b, obs |-> Observation(-1, cache, loads)])
-    /\ UNCHANGED <<content, mtime, loads, cache, autoReload, clock>>
+    /\ UNCHANGED <<content, mtime, loads, cache, autoReload, clock, remembered>>
 SetAutoReload(b) ==
     /\ autoReload # b
     /\ autoReload' = b
     /\ hist' = Append(hist, [op |-> "setautoreload", b |-> b, obs |-> Observation(-1, cache, loads)])
-    /\ UNCHANGED <<content, mtime, loads, cache, cacheOn, clock>>
+    /\ UNCHANGED <<content, mtime, loads, cache, cacheOn, clock, remembered>>
 SetDevMode(b) ==
     /\ autoReload' = b /\ cacheOn' = ~b
     /\ hist' = Append(hist, [op |-> "setdevmode", b |-> b, obs |-> Observation(-1, cache, loads)])
-    /\ UNCHANGED <<content, mtime, loads, cache, clock>>
+    /\ UNCHANGED <<content, mtime, loads, cache, clock, remembered>>
 
 Next ==
     /\ Len(hist) < MaxLen
